@@ -6,6 +6,7 @@
 package paths
 
 import (
+	"go/constant"
 	"fmt"
 	"go/ast"
 	"go/token"
@@ -344,6 +345,15 @@ func (e *enumerator) cond(c ast.Expr, p Path, depth int, k func(p Path, val bool
 	}
 	if e.c.Expand != nil {
 		c = e.c.Expand(c)
+	}
+	if e.c.Info != nil {
+		if tv, ok := e.c.Info.Types[ast.Unparen(c)]; ok && tv.Value != nil && tv.Value.Kind() == constant.Bool {
+			if _, isIdent := ast.Unparen(c).(*ast.Ident); isIdent {
+				// the literals true/false (a predicate helper's `return false`) have one outcome
+				k(p, constant.BoolVal(tv.Value))
+				return
+			}
+		}
 	}
 	if e.c.Fold != nil {
 		if known, val := e.c.Fold(c); known {
